@@ -12,7 +12,7 @@ THEOREMS = ["C09_plan_invariant_initial", "C09_plan_invariant_cflist", "C09_plan
             "C09_nb_every_transmission_legal", "C09_nb_fresh_device",
             "C09_async_every_transmission_legal", "C09_async_fresh_device",
             "C09_dynamic_join_progress", "C09_fixed_selection_progress", "C09_every_enabled_channel_can_be_drawn",
-            "C09_regional_constants_match_rp002"]
+            "C09_regional_constants_match_rp002", "C09_fixed_plan_channel_maps_match_rp002"]
 FETX = re.compile(r"tx\[(\d+)/(\d+)/(\d+) pw=(-?\d+) ([0-9a-f]*)\]")
 TXRE = re.compile(r"TX pw=(-?\d+) rf=(\d+)/(\d+)/(\d+)/(\d+)")
 SNAP = re.compile(r"dr=(\d+) rx1_delay=(\d+) pw=(-?\d+) rx1off=(\d+) rx2dr=(-?\d+) rx2f=(-?\d+)")
